@@ -146,6 +146,8 @@ struct Case {
 	layout: Vec<u8>,
 	pending_logs: bool,
 	op: Admin,
+	/// the call is repeated with a persistent I/O failure from its n-th I/O site on, for every n
+	faulted: bool,
 }
 
 fn build(dir: &Path, layout: &[u8], pending_logs: bool) -> Result<(Config, crate::model::Model, std::sync::Arc<Vec<Vec<Vec<u8>>>>), Fail> {
@@ -220,9 +222,6 @@ fn run_case(case: &Case) -> Result<(), Fail> {
 	let before = listing(&dir);
 	let before_hash = hash_dir(&dir);
 	let e = |what: &str, e: parity_db::Error| Fail::new("error", format!("{} failed: {}", what, e));
-	// expected configuration and content afterwards
-	let mut cols = cfg.cols.clone();
-	let mut mcols = model.cols.clone();
 	match &case.op {
 		Admin::Mismatch(i, j) => {
 			let var = variations(&cfg.cols[*i as usize]);
@@ -259,34 +258,168 @@ fn run_case(case: &Case) -> Result<(), Fail> {
 			}
 			return Ok(())
 		},
+		_ => (),
+	}
+	if case.faulted {
+		return run_faulted(case, &dir, &cfg, &model)
+	}
+	perform(&dir, &mut opts, &case.op, case.pending_logs).map_err(|(w, x)| e(w, x))?;
+	let (cols, mcols) = expected(&cfg, &model, &case.op);
+	post_check(&dir, &cfg, case, cols, mcols, opts.columns.len())
+}
+
+/// The administration call under a persistent I/O failure from its n-th file operation on (interposed system calls:
+/// creating open, write, truncate, sync, map, unlink, rename fail with EIO), for every n until the call completes. After a failed call and with the
+/// fault gone: the stored metadata is the configuration before or after the call, nothing else; the database opens
+/// with it; every other column holds exactly its content; the affected column is untouched or empty (after-state:
+/// empty / gone / newly configured); the call can then be completed (when it had not taken effect) and everything
+/// the unfaulted case checks holds - in particular a column added after a half-done drop starts empty.
+fn run_faulted(case: &Case, dir: &Path, cfg0: &Config, model0: &crate::model::Model) -> Result<(), Fail> {
+	let _ = (cfg0, model0);
+	let mut n = 0usize;
+	loop {
+		let (cfg, model, universe) = build(dir, &case.layout, case.pending_logs)?;
+		let mut opts = cfg.options(dir);
+		let (cols_after, mcols_after) = expected(&cfg, &model, &case.op);
+		if std::env::var("PDBMC_DEBUG").is_ok() {
+			let live: Vec<String> = std::fs::read_dir("/proc/self/fd").unwrap().filter_map(|e| e.ok()).filter_map(|e| std::fs::read_link(e.path()).ok()).map(|p| p.to_string_lossy().into_owned()).filter(|p| p.contains("/lock") && !p.contains("deleted")).collect();
+			eprintln!("n={} after build: live lock fds {:?}", n, live);
+		}
+		let what = format!("every file operation of the call from #{} on fails with EIO", n);
+		crate::crash::start(dir);
+		crate::crash::FAULT_AFTER.store(n as i64, std::sync::atomic::Ordering::SeqCst);
+		let r = std::panic::catch_unwind(std::panic::AssertUnwindSafe(|| perform(dir, &mut opts, &case.op, case.pending_logs)));
+		let reached = crate::crash::CALLS.load(std::sync::atomic::Ordering::SeqCst) > n as i64;
+		crate::crash::FAULT_AFTER.store(-1, std::sync::atomic::Ordering::SeqCst);
+		crate::crash::stop();
+		let r = r.map_err(|p| Fail::new("panic", format!("{}: the call panicked: {}", what, panic_msg(p))))?;
+		if r.is_ok() && reached {
+			return Err(Fail::new("unreported", format!("{}: a file operation failed but the call returned Ok", what)))
+		}
+		if r.is_ok() {
+			// the fault was not reached (or not on a path that matters): the unfaulted oracle, once more
+			return post_check(dir, &cfg, case, cols_after, mcols_after, opts.columns.len()).map_err(|f| Fail::new(&f.kind, format!("{} (call returned Ok): {}", what, f.msg)))
+		}
+		// which configuration is stored?
+		let meta = Options::load_metadata(dir).map_err(|e| Fail::new("error", format!("{}: metadata unreadable after the failed call: {}", what, e)))?;
+		let meta = meta.ok_or_else(|| Fail::new("mismatch", format!("{}: metadata file gone after the failed call", what)))?;
+		let before_opts: Vec<ColumnOptions> = cfg.cols.iter().map(|c| c.options()).collect();
+		let after_opts: Vec<ColumnOptions> = cols_after.iter().map(|c| c.options()).collect();
+		let took_effect = meta.columns == after_opts && after_opts != before_opts;
+		if !took_effect && meta.columns != before_opts {
+			return Err(Fail::new("mismatch", format!("{}: stored metadata is neither the configuration before the call nor the one after it: {:?}", what, meta.columns)))
+		}
+		let affected: Option<usize> = match &case.op {
+			Admin::Add(_) => if took_effect { Some(cfg.cols.len()) } else { None },
+			Admin::DropLast => if took_effect { None } else { Some(cfg.cols.len() - 1) },
+			Admin::Reset(i, _) | Admin::Clear(i) => Some(*i as usize),
+			_ => None,
+		};
+		let cols_now = if took_effect { cols_after.clone() } else { cfg.cols.clone() };
+		// Every other column holds exactly its content. The affected column of an interrupted call may be in any
+		// intermediate state (the property does not speak about it) and is not read here; once the call has been
+		// completed below it must be as after an uninterrupted call.
+		let base: Vec<crate::model::ColModel> = if took_effect { mcols_after.clone() } else { model.cols.clone() };
+		let cfg_now = Config { cols: cols_now.clone(), ..cfg.clone() };
+		let uni_now: std::sync::Arc<Vec<Vec<Vec<u8>>>> = {
+			let mut u: Vec<Vec<Vec<u8>>> = (*universe).clone();
+			u.resize(cols_now.len(), vec![]);
+			std::sync::Arc::new(u)
+		};
+		{
+			let mut ex = Exec::detached(dir, &cfg_now, uni_now.clone());
+			ex.model = crate::model::Model { specs: cols_now.clone(), cols: base.clone(), locked: Default::default(), postponed: vec![] };
+			ex.check_entries = false;
+			if let Some(a) = affected {
+				ex.skip_cols.push(a as u8);
+			}
+			if let Err(f) = ex.open(false) {
+				return Err(Fail::new(&f.kind, format!("{}: the database does not open with the stored configuration (the one {} the call) after the failed call: {}", what, if took_effect { "after" } else { "before" }, f.msg)))
+			}
+			let r = ex.check();
+			match &r {
+				Err(f) if f.kind == "panic" => ex.abandon(),
+				_ => {
+					let _ = ex.close();
+				},
+			}
+			r.map_err(|f| Fail::new(&f.kind, format!("{}: after the failed call (stored configuration: the one {} the call) a column the call was not about changed: {}", what, if took_effect { "after" } else { "before" }, f.msg)))?;
+		}
+		let now = base;
+		// complete the call
+		let (cols_f, mcols_f, ncols) = if took_effect {
+			(cols_after, now, cols_now.len())
+		} else {
+			let mut o2 = cfg.options(dir);
+			perform(dir, &mut o2, &case.op, false).map_err(|(w, x)| Fail::new("error", format!("{}: repeating the call after the fault is gone: {} failed: {}", what, w, x)))?;
+			let m_now = crate::model::Model { specs: cfg.cols.clone(), cols: now, locked: Default::default(), postponed: vec![] };
+			let (c, m) = expected(&cfg, &m_now, &case.op);
+			(c, m, o2.columns.len())
+		};
+		if std::env::var("PDBMC_DEBUG").is_ok() {
+			let live: Vec<String> = std::fs::read_dir("/proc/self/fd").unwrap().filter_map(|e| e.ok()).filter_map(|e| std::fs::read_link(e.path()).ok()).map(|p| p.to_string_lossy().into_owned()).filter(|p| p.contains("/lock") && !p.contains("deleted")).collect();
+			eprintln!("n={} before post_check: live lock fds {:?}", n, live);
+		}
+		post_check(dir, &cfg, case, cols_f, mcols_f, ncols).map_err(|f| Fail::new(&f.kind, format!("{}, then the call completed: {}", what, f.msg)))?;
+		if std::env::var("PDBMC_DEBUG").is_ok() {
+			let live: Vec<String> = std::fs::read_dir("/proc/self/fd").unwrap().filter_map(|e| e.ok()).filter_map(|e| std::fs::read_link(e.path()).ok()).map(|p| p.to_string_lossy().into_owned()).filter(|p| p.contains("/lock") && !p.contains("deleted")).collect();
+			eprintln!("n={} after post_check: live lock fds {:?}", n, live);
+		}
+		n += 1;
+		if n > 1500 {
+			return Err(Fail::new("machinery", "more than 1500 fault points in an administration call".into()))
+		}
+	}
+}
+
+/// the administration call itself
+fn perform(dir: &Path, opts: &mut Options, op: &Admin, pending_logs: bool) -> Result<(), (&'static str, parity_db::Error)> {
+	match op {
+		Admin::Add(k) => Db::add_column(opts, kind_spec(*k).options()).map_err(|x| ("add_column", x)),
+		Admin::DropLast => Db::drop_last_column(opts).map_err(|x| ("drop_last_column", x)),
+		Admin::Reset(i, newk) => Db::reset_column(opts, *i, newk.map(|k| kind_spec(k).options())).map_err(|x| ("reset_column", x)),
+		Admin::Clear(i) => {
+			if pending_logs {
+				// clear_column requires a closed database with no pending logs; replay them first, as the other
+				// administration calls do themselves
+				let db = Db::open(opts).map_err(|x| ("open before clear_column", x))?;
+				drop(db);
+			}
+			parity_db::clear_column(dir, *i).map_err(|x| ("clear_column", x))
+		},
+		_ => Ok(()),
+	}
+}
+
+/// configuration and content the call must leave behind
+fn expected(cfg: &Config, model: &crate::model::Model, op: &Admin) -> (Vec<ColSpec>, Vec<crate::model::ColModel>) {
+	let mut cols = cfg.cols.clone();
+	let mut mcols = model.cols.clone();
+	match op {
 		Admin::Add(k) => {
-			Db::add_column(&mut opts, kind_spec(*k).options()).map_err(|x| e("add_column", x))?;
 			cols.push(kind_spec(*k));
 			mcols.push(empty_col(kind_spec(*k).kind()));
 		},
 		Admin::DropLast => {
-			Db::drop_last_column(&mut opts).map_err(|x| e("drop_last_column", x))?;
 			cols.pop();
 			mcols.pop();
 		},
 		Admin::Reset(i, newk) => {
-			Db::reset_column(&mut opts, *i, newk.map(|k| kind_spec(k).options())).map_err(|x| e("reset_column", x))?;
 			if let Some(k) = newk {
 				cols[*i as usize] = kind_spec(*k);
 			}
 			mcols[*i as usize] = empty_col(cols[*i as usize].kind());
 		},
 		Admin::Clear(i) => {
-			if case.pending_logs {
-				// clear_column requires a closed database with no pending logs; replay them first, as the other
-				// administration calls do themselves
-				let db = Db::open(&opts).map_err(|x| e("open before clear_column", x))?;
-				drop(db);
-			}
-			parity_db::clear_column(&dir, *i).map_err(|x| e("clear_column", x))?;
 			mcols[*i as usize] = empty_col(cols[*i as usize].kind());
 		},
+		_ => (),
 	}
+	(cols, mcols)
+}
+
+fn post_check(dir: &Path, cfg: &Config, case: &Case, cols: Vec<ColSpec>, mcols: Vec<crate::model::ColModel>, opts_columns: usize) -> Result<(), Fail> {
+	let dir = dir.to_path_buf();
 	// no file of a dropped / reset / cleared column is left behind (table, index and ref-count files carry the column id)
 	let gone: Option<u8> = match &case.op {
 		Admin::DropLast => Some(cfg.cols.len() as u8 - 1),
@@ -300,8 +433,25 @@ fn run_case(case: &Case) -> Result<(), Fail> {
 			return Err(Fail::new("mismatch", format!("files of column {} survive the call: {:?}", ci, left)))
 		}
 	}
-	if opts.columns.len() != cols.len() {
-		return Err(Fail::new("mismatch", format!("options hold {} columns after the call, expected {}", opts.columns.len(), cols.len())))
+	// a column added where one was dropped starts empty
+	let (cols, mcols, opts_columns) = if matches!(case.op, Admin::DropLast) {
+		let again = cfg.cols.last().unwrap().clone();
+		let cfg_after = Config { cols: cols.clone(), ..cfg.clone() };
+		let mut o = cfg_after.options(&dir);
+		if o.columns.len() != opts_columns {
+			return Err(Fail::new("mismatch", format!("options hold {} columns after the call, expected {}", opts_columns, cols.len())))
+		}
+		Db::add_column(&mut o, again.options()).map_err(|x| Fail::new("error", format!("add_column after drop_last_column failed: {}", x)))?;
+		let mut c2 = cols.clone();
+		let mut m2 = mcols.clone();
+		m2.push(empty_col(again.kind()));
+		c2.push(again);
+		(c2, m2, o.columns.len())
+	} else {
+		(cols, mcols, opts_columns)
+	};
+	if opts_columns != cols.len() {
+		return Err(Fail::new("mismatch", format!("options hold {} columns after the call, expected {}", opts_columns, cols.len())))
 	}
 	let cfg2 = Config { cols: cols.clone(), ..cfg.clone() };
 	let mut txs: Vec<Tx> = cols.iter().enumerate().map(|(i, c)| content_tx(i as u8, if c.multitree { 3 } else if c.ref_counted { 2 } else if c.btree { 1 } else { 0 })).collect();
@@ -378,21 +528,31 @@ fn cases(tier: &str) -> Vec<Case> {
 	for l in layouts {
 		for pending in [false, true] {
 			for k in 0..4u8 {
-				v.push(Case { layout: l.clone(), pending_logs: pending, op: Admin::Add(k) });
+				v.push(Case { layout: l.clone(), pending_logs: pending, op: Admin::Add(k), faulted: false });
 			}
-			v.push(Case { layout: l.clone(), pending_logs: pending, op: Admin::DropLast });
+			v.push(Case { layout: l.clone(), pending_logs: pending, op: Admin::DropLast, faulted: false });
 			for i in 0..l.len() as u8 {
-				v.push(Case { layout: l.clone(), pending_logs: pending, op: Admin::Reset(i, None) });
+				v.push(Case { layout: l.clone(), pending_logs: pending, op: Admin::Reset(i, None), faulted: false });
 				for k in 0..4u8 {
-					v.push(Case { layout: l.clone(), pending_logs: pending, op: Admin::Reset(i, Some(k)) });
+					v.push(Case { layout: l.clone(), pending_logs: pending, op: Admin::Reset(i, Some(k)), faulted: false });
 				}
-				v.push(Case { layout: l.clone(), pending_logs: pending, op: Admin::Clear(i) });
+				v.push(Case { layout: l.clone(), pending_logs: pending, op: Admin::Clear(i), faulted: false });
 				for j in 0..8 {
-					v.push(Case { layout: l.clone(), pending_logs: pending, op: Admin::Mismatch(i, j) });
+					v.push(Case { layout: l.clone(), pending_logs: pending, op: Admin::Mismatch(i, j), faulted: false });
 				}
 			}
-			v.push(Case { layout: l.clone(), pending_logs: pending, op: Admin::CountMismatch(true) });
-			v.push(Case { layout: l.clone(), pending_logs: pending, op: Admin::CountMismatch(false) });
+			v.push(Case { layout: l.clone(), pending_logs: pending, op: Admin::CountMismatch(true), faulted: false });
+			v.push(Case { layout: l.clone(), pending_logs: pending, op: Admin::CountMismatch(false), faulted: false });
+		}
+	}
+	// the calls under an I/O failure at every site
+	let fl: Vec<Vec<u8>> = if tier == "thorough" { vec![vec![0, 1, 3], vec![3, 2, 1], vec![1, 0, 2], vec![2, 3], vec![0]] } else { vec![vec![0, 1, 3], vec![3, 2]] };
+	for l in fl {
+		let last = l.len() as u8 - 1;
+		for pending in [false, true] {
+			for op in [Admin::Add(0), Admin::DropLast, Admin::Reset(last, None), Admin::Reset(0, Some(1)), Admin::Clear(last)] {
+				v.push(Case { layout: l.clone(), pending_logs: pending, op, faulted: true });
+			}
 		}
 	}
 	v
@@ -416,7 +576,10 @@ pub fn run(tier: &str) -> ! {
 			run.violation(json!({"property": "C17", "engine": "admin", "message": msg}), &msg);
 		}
 	}
-	let cs = cases(tier);
+	let mut cs = cases(tier);
+	if let Ok(f) = std::env::var("PDBMC_C17_ONLY") {
+		cs.retain(|c| format!("{:?}", c).contains(&f));
+	}
 	let items = par_map(cs.len(), nthreads(), "c17", |i| {
 		let r = crate::interpose::fresh_thread(|| run_case(&cs[i]));
 		match r {
@@ -428,7 +591,7 @@ pub fn run(tier: &str) -> ! {
 	let mut reported = std::collections::BTreeSet::new();
 	for (i, it) in items.into_iter().enumerate() {
 		let c = &cs[i];
-		let describe = format!("layout {:?} ({}), {}: {:?}", c.layout.iter().map(|k| kind_spec(*k).short()).collect::<Vec<_>>(), c.layout.len(), if c.pending_logs { "unreplayed logs present" } else { "cleanly closed" }, c.op);
+		let describe = format!("layout {:?} ({}), {}{}: {:?}", c.layout.iter().map(|k| kind_spec(*k).short()).collect::<Vec<_>>(), c.layout.len(), if c.faulted { "with an I/O failure at every site of the call, " } else { "" }, if c.pending_logs { "unreplayed logs present" } else { "cleanly closed" }, c.op);
 		match it {
 			Item::Done(b) => {
 				let j: serde_json::Value = serde_json::from_slice(&b).unwrap();
